@@ -54,9 +54,12 @@ def impl(case):
                 blocks.append((np.arange(row0, row0 + s, dtype=np.int16)[:, None] * 3 +
                                np.arange(case['nch'], dtype=np.int16)[None, :]).astype(np.int16))
                 row0 += s
-                blocks[-1].tofile(p)
+                with open(p, 'wb') as f:
+                    f.write(b'\x5a' * case.get('offset', 0))      # header bytes before the samples
+                    f.write(blocks[-1].tobytes())
                 paths.append(p)
-            r = T.get_ephys_reader(paths, sample_rate=sr, dtype=np.int16, n_channels=case['nch'])
+            r = T.get_ephys_reader(paths, sample_rate=sr, dtype=np.int16, n_channels=case['nch'],
+                                   offset=case.get('offset', 0))
             it = [[int(a), int(b)] for a, b in r.iter_chunks()]
             # read_by_chunks_eq_concat: reader[i0:i1] over the iterator, stacked = the recording
             whole = np.concatenate(blocks, axis=0)
@@ -205,6 +208,8 @@ def tally(rep, case, impl_res, ans):
         rep.count('chunks:%s' % min(len(impl_res['ok']), 6))
     if case['op'] == 'reader_flat':
         rep.count('files:%d' % len(case['sizes']))
+        rep.count('header_offset_rows:%s' % ('0' if not case.get('offset') else
+                                             '<1' if case['offset'] < 2 * case['nch'] else '>=1'))
 
 
 def classify(case, impl_res, ans, why):
@@ -280,7 +285,11 @@ def gen(tier, rng):
         for sizes in itertools.product(range(1, S2 + 1), repeat=k):
             for cs in (1, 2, 3, 5, 7):
                 if _cs_ok(cs):
-                    yield dict(p=PID, op='reader_flat', sizes=list(sizes), cs=cs, nch=1 + (sum(sizes) % 3))
+                    nch = 1 + (sum(sizes) % 3)
+                    kk = sum(sizes) * 7 + cs + k
+                    # header offsets: none, less than a row, exactly one row, several rows
+                    yield dict(p=PID, op='reader_flat', sizes=list(sizes), cs=cs, nch=nch,
+                               offset=[0, 1, 2 * nch, 2 * nch * 3, 4, 0][kk % 6])
     for n in range(1, 12):
         for cs in (1, 2, 3, 5, 7, 20):
             if _cs_ok(cs):
